@@ -40,7 +40,9 @@ func seqFamilies(w *world) []*Family {
 					continue
 				}
 				a, b := a, b
-				emit(func() Case { return seq(fmt.Sprintf("seq/pair/%s,%s", a.name, b.name), playOpt{}, func() []wire { return []wire{{a.code, a.payload}, {b.code, b.payload}} }) })
+				emit(func() Case {
+					return seq(fmt.Sprintf("seq/pair/%s,%s", a.name, b.name), playOpt{}, func() []wire { return []wire{{a.code, a.payload}, {b.code, b.payload}} })
+				})
 			}
 		}
 	})
@@ -70,7 +72,9 @@ func seqFamilies(w *world) []*Family {
 					continue
 				}
 				a, b := a, b
-				emit(func() Case { return seq(fmt.Sprintf("seq/code-pair/%s,%s", a.n, b.n), playOpt{}, func() []wire { return []wire{a.w, b.w} }) })
+				emit(func() Case {
+					return seq(fmt.Sprintf("seq/code-pair/%s,%s", a.n, b.n), playOpt{}, func() []wire { return []wire{a.w, b.w} })
+				})
 			}
 		}
 	})
@@ -81,34 +85,40 @@ func seqFamilies(w *world) []*Family {
 		}
 		for _, n := range counts {
 			n := n
-			emit(func() Case { return seq(fmt.Sprintf("seq/confirms-for-unknown-blocks/distinct-heights=%d", n), playOpt{}, func() []wire {
+			emit(func() Case {
+				return seq(fmt.Sprintf("seq/confirms-for-unknown-blocks/distinct-heights=%d", n), playOpt{}, func() []wire {
+					var l []wire
+					for i := 0; i < n; i++ {
+						var h common.Hash
+						h[0], h[1], h[2] = byte(i>>16), byte(i>>8), byte(i)
+						l = append(l, wire{0x09, enc(&network.BlockConfirmData{Hash: h, Height: uint32(10 + i), SignInfo: types.SignData{1}})})
+					}
+					return l
+				})
+			})
+		}
+		emit(func() Case {
+			return seq("seq/confirms-for-unknown-blocks/one-height-x10000", playOpt{}, func() []wire {
 				var l []wire
-				for i := 0; i < n; i++ {
-					var h common.Hash
-					h[0], h[1], h[2] = byte(i>>16), byte(i>>8), byte(i)
-					l = append(l, wire{0x09, enc(&network.BlockConfirmData{Hash: h, Height: uint32(10 + i), SignInfo: types.SignData{1}})})
+				for i := 0; i < 10000; i++ {
+					var s types.SignData
+					s[0], s[1] = byte(i>>8), byte(i)
+					l = append(l, wire{0x09, enc(&network.BlockConfirmData{Hash: w.hash("C"), Height: 3, SignInfo: s})})
 				}
 				return l
-			}) })
-		}
-		emit(func() Case { return seq("seq/confirms-for-unknown-blocks/one-height-x10000", playOpt{}, func() []wire {
-			var l []wire
-			for i := 0; i < 10000; i++ {
-				var s types.SignData
-				s[0], s[1] = byte(i>>8), byte(i)
-				l = append(l, wire{0x09, enc(&network.BlockConfirmData{Hash: w.hash("C"), Height: 3, SignInfo: s})})
-			}
-			return l
-		}) })
-		emit(func() Case { return seq("seq/confirms-for-unknown-blocks/one-height-10000-hashes", playOpt{}, func() []wire {
-			var l []wire
-			for i := 0; i < 10000; i++ {
-				var h common.Hash
-				h[0], h[1], h[2] = byte(i>>16), byte(i>>8), byte(i)
-				l = append(l, wire{0x09, enc(&network.BlockConfirmData{Hash: h, Height: 3, SignInfo: types.SignData{1}})})
-			}
-			return l
-		}) })
+			})
+		})
+		emit(func() Case {
+			return seq("seq/confirms-for-unknown-blocks/one-height-10000-hashes", playOpt{}, func() []wire {
+				var l []wire
+				for i := 0; i < 10000; i++ {
+					var h common.Hash
+					h[0], h[1], h[2] = byte(i>>16), byte(i>>8), byte(i)
+					l = append(l, wire{0x09, enc(&network.BlockConfirmData{Hash: h, Height: 3, SignInfo: types.SignData{1}})})
+				}
+				return l
+			})
+		})
 	})
 	add("orphans", 400, func(th bool, emit func(func() Case)) {
 		counts := []int{100, 10240, 10241}
@@ -117,47 +127,61 @@ func seqFamilies(w *world) []*Family {
 		}
 		for _, n := range counts {
 			n := n
-			emit(func() Case { return seq(fmt.Sprintf("seq/orphans/one-message/distinct-heights=%d", n), playOpt{items: n}, func() []wire {
-				var l types.Blocks
-				for i := 0; i < n; i++ {
-					l = append(l, junkOrphan(uint32(10+i), 0))
-				}
-				return []wire{{0x08, enc(l)}}
-			}) })
-			emit(func() Case { return seq(fmt.Sprintf("seq/orphans/one-message/descending-heights=%d", n), playOpt{items: n}, func() []wire {
-				var l types.Blocks
-				for i := n - 1; i >= 0; i-- {
-					l = append(l, junkOrphan(uint32(10+i), 0))
-				}
-				return []wire{{0x08, enc(l)}}
-			}) })
+			emit(func() Case {
+				return seq(fmt.Sprintf("seq/orphans/one-message/distinct-heights=%d", n), playOpt{items: n}, func() []wire {
+					var l types.Blocks
+					for i := 0; i < n; i++ {
+						l = append(l, junkOrphan(uint32(10+i), 0))
+					}
+					return []wire{{0x08, enc(l)}}
+				})
+			})
+			emit(func() Case {
+				return seq(fmt.Sprintf("seq/orphans/one-message/descending-heights=%d", n), playOpt{items: n}, func() []wire {
+					var l types.Blocks
+					for i := n - 1; i >= 0; i-- {
+						l = append(l, junkOrphan(uint32(10+i), 0))
+					}
+					return []wire{{0x08, enc(l)}}
+				})
+			})
 		}
-		emit(func() Case { return seq("seq/orphans/one-height-x10000", playOpt{items: 10000}, func() []wire {
-			var l types.Blocks
-			for i := 0; i < 10000; i++ {
-				b := junkOrphan(77, 0)
-				b.Header.GasUsed = uint64(i)
-				l = append(l, b)
-			}
-			return []wire{{0x08, enc(l)}}
-		}) })
-		emit(func() Case { return seq("seq/orphans/messages=300-distinct-heights", playOpt{}, func() []wire {
-			var l []wire
-			for i := 0; i < 300; i++ {
-				l = append(l, wire{0x08, enc(types.Blocks{junkOrphan(uint32(10+i), 0)})})
-			}
-			return l
-		}) })
+		emit(func() Case {
+			return seq("seq/orphans/one-height-x10000", playOpt{items: 10000}, func() []wire {
+				var l types.Blocks
+				for i := 0; i < 10000; i++ {
+					b := junkOrphan(77, 0)
+					b.Header.GasUsed = uint64(i)
+					l = append(l, b)
+				}
+				return []wire{{0x08, enc(l)}}
+			})
+		})
+		emit(func() Case {
+			return seq("seq/orphans/messages=300-distinct-heights", playOpt{}, func() []wire {
+				var l []wire
+				for i := 0; i < 300; i++ {
+					l = append(l, wire{0x08, enc(types.Blocks{junkOrphan(uint32(10+i), 0)})})
+				}
+				return l
+			})
+		})
 		// real orphans whose parents arrive later: O2, O, then C; the queue timer connects them
-		emit(func() Case { return seq("seq/orphans/O2,O,C", playOpt{waitQueue: true}, func() []wire {
-			return []wire{{0x08, w.enc1("O2")}, {0x08, w.enc1("O")}, {0x08, w.enc1("C")}}
-		}) })
-		emit(func() Case { return seq("seq/orphans/O,C,wait,O2", playOpt{waitQueue: true}, func() []wire {
-			return []wire{{0x08, w.enc1("O")}, {0x08, w.enc1("C")}, {0x08, w.enc1("O2")}}
-		}) })
-		emit(func() Case { return seq("seq/orphans/height-0-and-1-of-another-genesis", playOpt{}, func() []wire {
-			return []wire{{0x08, enc(types.Blocks{junkOrphan(0, 0)})}, {0x08, enc(types.Blocks{junkOrphan(1, 0)})}}
-		}) })
+		emit(func() Case {
+			return seq("seq/orphans/O2,O,C", playOpt{waitQueue: true}, func() []wire {
+				return []wire{{0x08, w.enc1("O2")}, {0x08, w.enc1("O")}, {0x08, w.enc1("C")}}
+			})
+		})
+		emit(func() Case {
+			return seq("seq/orphans/O,C,wait,O2", playOpt{waitQueue: true}, func() []wire {
+				return []wire{{0x08, w.enc1("O")}, {0x08, w.enc1("C")}, {0x08, w.enc1("O2")}}
+			})
+		})
+		emit(func() Case {
+			return seq("seq/orphans/height-0-and-1-of-another-genesis", playOpt{}, func() []wire {
+				return []wire{{0x08, enc(types.Blocks{junkOrphan(0, 0)})}, {0x08, enc(types.Blocks{junkOrphan(1, 0)})}}
+			})
+		})
 	})
 	add("confirm-before-block", 30, func(th bool, emit func(func() Case)) {
 		C := w.hash("C")
@@ -165,53 +189,71 @@ func seqFamilies(w *world) []*Family {
 			return wire{0x09, enc(&network.BlockConfirmData{Hash: C, Height: 3, SignInfo: node.SignConfirm(node.Deputy(i), C)})}
 		}
 		blk := wire{0x08, w.enc1("C")}
-		emit(func() Case { return seq("seq/confirm-before-block/d1,C", playOpt{}, func() []wire { return []wire{cf(1), blk} }) })
-		emit(func() Case { return seq("seq/confirm-before-block/d1,d2,d4,C", playOpt{}, func() []wire { return []wire{cf(1), cf(2), cf(4), blk} }) })
-		emit(func() Case { return seq("seq/confirm-before-block/d1,d1,outsider,C", playOpt{}, func() []wire {
-			return []wire{cf(1), cf(1), {0x09, enc(&network.BlockConfirmData{Hash: C, Height: 3, SignInfo: node.SignConfirm(node.K("outsider"), C)})}, blk}
-		}) })
-		emit(func() Case { return seq("seq/confirm-before-block/wrong-height,C", playOpt{}, func() []wire {
-			return []wire{{0x09, enc(&network.BlockConfirmData{Hash: C, Height: 9, SignInfo: node.SignConfirm(node.Deputy(1), C)})}, blk}
-		}) })
-		emit(func() Case { return seq("seq/confirm-before-block/junk-x1000,C", playOpt{}, func() []wire {
-			var l []wire
-			for i := 0; i < 1000; i++ {
-				var s types.SignData
-				s[0], s[1] = byte(i>>8), byte(i)
-				l = append(l, wire{0x09, enc(&network.BlockConfirmData{Hash: C, Height: 3, SignInfo: s})})
-			}
-			return append(l, blk)
-		}) })
-		emit(func() Case { return seq("seq/blocks-then-confirms/C,all-confirms", playOpt{}, func() []wire {
-			return []wire{blk, {0x0b, enc(&network.BlockConfirms{Height: 3, Hash: C, Pack: []types.SignData{node.SignConfirm(node.Deputy(1), C), node.SignConfirm(node.Deputy(2), C), node.SignConfirm(node.Deputy(4), C)}})}, {0x0a, enc(&network.GetConfirmInfo{Height: 3, Hash: C})}}
-		}) })
+		emit(func() Case {
+			return seq("seq/confirm-before-block/d1,C", playOpt{}, func() []wire { return []wire{cf(1), blk} })
+		})
+		emit(func() Case {
+			return seq("seq/confirm-before-block/d1,d2,d4,C", playOpt{}, func() []wire { return []wire{cf(1), cf(2), cf(4), blk} })
+		})
+		emit(func() Case {
+			return seq("seq/confirm-before-block/d1,d1,outsider,C", playOpt{}, func() []wire {
+				return []wire{cf(1), cf(1), {0x09, enc(&network.BlockConfirmData{Hash: C, Height: 3, SignInfo: node.SignConfirm(node.K("outsider"), C)})}, blk}
+			})
+		})
+		emit(func() Case {
+			return seq("seq/confirm-before-block/wrong-height,C", playOpt{}, func() []wire {
+				return []wire{{0x09, enc(&network.BlockConfirmData{Hash: C, Height: 9, SignInfo: node.SignConfirm(node.Deputy(1), C)})}, blk}
+			})
+		})
+		emit(func() Case {
+			return seq("seq/confirm-before-block/junk-x1000,C", playOpt{}, func() []wire {
+				var l []wire
+				for i := 0; i < 1000; i++ {
+					var s types.SignData
+					s[0], s[1] = byte(i>>8), byte(i)
+					l = append(l, wire{0x09, enc(&network.BlockConfirmData{Hash: C, Height: 3, SignInfo: s})})
+				}
+				return append(l, blk)
+			})
+		})
+		emit(func() Case {
+			return seq("seq/blocks-then-confirms/C,all-confirms", playOpt{}, func() []wire {
+				return []wire{blk, {0x0b, enc(&network.BlockConfirms{Height: 3, Hash: C, Pack: []types.SignData{node.SignConfirm(node.Deputy(1), C), node.SignConfirm(node.Deputy(2), C), node.SignConfirm(node.Deputy(4), C)}})}, {0x0a, enc(&network.GetConfirmInfo{Height: 3, Hash: C})}}
+			})
+		})
 	})
 	add("every-request", 30, func(th bool, emit func(func() Case)) {
-		emit(func() Case { return seq("seq/every-request/all-samples-in-order", playOpt{mine: true}, func() []wire {
-			var l []wire
-			for _, s := range w.samples() {
-				if s.code != 0x02 {
-					l = append(l, wire{s.code, s.payload})
+		emit(func() Case {
+			return seq("seq/every-request/all-samples-in-order", playOpt{mine: true}, func() []wire {
+				var l []wire
+				for _, s := range w.samples() {
+					if s.code != 0x02 {
+						l = append(l, wire{s.code, s.payload})
+					}
 				}
-			}
-			return l
-		}) })
+				return l
+			})
+		})
 		for _, n := range []int{100, 10000} {
 			n := n
-			emit(func() Case { return seq(fmt.Sprintf("seq/status-requests/x%d", n), playOpt{}, func() []wire {
-				var l []wire
-				for i := 0; i < n; i++ {
-					l = append(l, wire{0x04, enc(&network.GetLatestStatus{})})
-				}
-				return l
-			}) })
-			emit(func() Case { return seq(fmt.Sprintf("seq/get-blocks/x%d", n), playOpt{}, func() []wire {
-				var l []wire
-				for i := 0; i < n; i++ {
-					l = append(l, wire{0x07, enc(&network.GetBlocksData{From: 0, To: 2})})
-				}
-				return l
-			}) })
+			emit(func() Case {
+				return seq(fmt.Sprintf("seq/status-requests/x%d", n), playOpt{}, func() []wire {
+					var l []wire
+					for i := 0; i < n; i++ {
+						l = append(l, wire{0x04, enc(&network.GetLatestStatus{})})
+					}
+					return l
+				})
+			})
+			emit(func() Case {
+				return seq(fmt.Sprintf("seq/get-blocks/x%d", n), playOpt{}, func() []wire {
+					var l []wire
+					for i := 0; i < n; i++ {
+						l = append(l, wire{0x07, enc(&network.GetBlocksData{From: 0, To: 2})})
+					}
+					return l
+				})
+			})
 		}
 	})
 	add("discover", 200, func(th bool, emit func(func() Case)) {
@@ -219,17 +261,19 @@ func seqFamilies(w *world) []*Family {
 		for _, n := range []int{100, 10000} {
 			for _, q := range []int{1, 100, 1000} {
 				n, q := n, q
-				emit(func() Case { return seq(fmt.Sprintf("seq/discover/fill=%d/requests=%d", n, q), playOpt{items: n + q}, func() []wire {
-					var nodes []string
-					for i := 0; i < n; i++ {
-						nodes = append(nodes, nodeString(node.K(fmt.Sprintf("found-%d", i)), fmt.Sprintf("10.%d.%d.%d:7001", i>>16&255, i>>8&255, i&255)))
-					}
-					l := []wire{{0x0d, enc(&network.DiscoverResData{Sequence: 1, Nodes: nodes})}}
-					for i := 0; i < q; i++ {
-						l = append(l, wire{0x0c, enc(&network.DiscoverReqData{Sequence: 1})})
-					}
-					return l
-				}) })
+				emit(func() Case {
+					return seq(fmt.Sprintf("seq/discover/fill=%d/requests=%d", n, q), playOpt{items: n + q}, func() []wire {
+						var nodes []string
+						for i := 0; i < n; i++ {
+							nodes = append(nodes, nodeString(node.K(fmt.Sprintf("found-%d", i)), fmt.Sprintf("10.%d.%d.%d:7001", i>>16&255, i>>8&255, i&255)))
+						}
+						l := []wire{{0x0d, enc(&network.DiscoverResData{Sequence: 1, Nodes: nodes})}}
+						for i := 0; i < q; i++ {
+							l = append(l, wire{0x0c, enc(&network.DiscoverReqData{Sequence: 1})})
+						}
+						return l
+					})
+				})
 			}
 		}
 	})
